@@ -181,6 +181,8 @@ def _pwvalue(s, i):
                 return None, i
             items.append((k[1], v))
             j = ws(j2, ";")
+            if j < n and s[j] != "}" and not re.search(r"[;\n]", s[j2:j]):
+                return None, i  # entries on one line need a ';' between them
         return (("d", items), j + 1) if j < n else (None, i)
     if i < n and s[i] in PWQ:
         d, j, an = _dq(s, i, "pwsh")
@@ -207,26 +209,48 @@ KNOWN = re.compile(r"^(subword_)?(literals|descriptions|descrs|descr_literal_ids
                    r"max_fallback_level|state)$")
 
 
+LOOKS = {  # main function: lines that look like table declarations and therefore must have been understood
+    "bash": re.compile(r"^ {0,4}(?! )((local|declare|typeset)[ \t]+-[aA]\b|[A-Za-z_]\w*\[\d+\]=)"),
+    "fish": re.compile(r"^ {0,4}(?! )set[ \t]+(--global[ \t]+)?\w*(literals|descr|transitions|_level_)"),
+    "pwsh": re.compile(r"^ {0,4}(?! )\$\w*(literals|descriptions|transitions|_level_)"),
+}
+LOOKS["zsh"] = LOOKS["bash"]
+
+
 def _exec(blocks, name, shell, command, env, an, seen):
     """'run' the table statements of function <name> into env, following calls to _<command>_subword_shape_<k>.
     env[NAME] = ("s",W) | ("l",[W]) | ("d",{key:W}) for sh/fish; pwsh keeps its nested values.
-    -> True if the chain ends in a call of the shared driver _<command>_subword (or name is the main function)"""
+    -> True if the chain ends in a call of the shared driver _<command>_subword (or name is the main function).
+    Within-word wrapper/shape functions must consist of table statements and one call only; in the main function
+    every line that looks like a table declaration must have been understood."""
     if name in seen or name not in blocks:
         an.append("function %s %s" % (name, "called recursively" if name in seen else "not found"))
         return False
     seen.add(name)
-    s = blocks[name]
-    call = re.compile(r"^[ \t]*(_%s_subword(?:_shape_\d+)?)(?=[ \t]|$)" % re.escape(command), re.M)
+    s, ismain, used = blocks[name], name == "_" + command, []
+    call = re.compile(r"^[ \t]*(_%s_subword(?:_shape_\d+)?)(?=[ \t]|$).*$" % re.escape(command), re.M)
+
+    def leftovers(text, off):
+        for lm in re.finditer(r"^.*$", text, re.M):
+            ln, at = lm.group(0), lm.start() + off
+            if ln.strip() and not any(a <= at < b for a, b in used) and (not ismain or LOOKS[shell].match(ln)):
+                an.append("%s: line not understood: %r" % (name, ln.strip()[:60]))
     pos = 0
     while True:
-        m, c = STMT[shell].search(s, pos), (call.search(s, pos) if name != "_" + command else None)
+        m, c = STMT[shell].search(s, pos), (None if ismain else call.search(s, pos))
         if c and (not m or c.start() <= m.start()):
+            leftovers(s[:c.start()], 0)
+            leftovers(s[c.end():], c.end())
             if c.group(1) == "_%s_subword" % command:
                 return True
             return _exec(blocks, c.group(1), shell, command, env, an, seen)
         if not m:
-            return False
-        pos = _stmt(s, m, shell, env, an)
+            leftovers(s, 0)
+            return ismain
+        e = _stmt(s, m, shell, env, an)
+        if e >= 0:
+            used.append((m.start(), max(e, m.start() + 1)))
+        pos = m.end() if e < 0 else max(e, m.end())
 
 
 def _stmt(s, m, shell, env, an):
@@ -237,7 +261,7 @@ def _stmt(s, m, shell, env, an):
         if v is None or not rest:
             if KNOWN.match(name) and name != "state":
                 an.append("cannot parse value of $%s: %r" % (name, s[m.end():m.end() + 40]))
-            return m.end()
+            return -1
         if key is None:
             env[name] = v
         else:
@@ -249,7 +273,7 @@ def _stmt(s, m, shell, env, an):
     if shell == "fish":
         flags, name, key = m.group(1).split(), m.group(2), m.group(3)
         if [f for f in flags if f not in ("--global", "-g")]:
-            return m.end()
+            return -1
         j, ws, bad = m.end(), [], False
         while True:
             while j < len(s) and s[j] in " \t":
@@ -266,7 +290,7 @@ def _stmt(s, m, shell, env, an):
         if bad:
             if KNOWN.match(name) and name != "state":
                 an.append("cannot parse value of %s: %r" % (name, s[m.end():m.end() + 40]))
-            return m.end()
+            return -1
         if key is None:
             env[name] = ("l", ws)
         else:
@@ -282,7 +306,8 @@ def _stmt(s, m, shell, env, an):
     if eq != "=":
         if decl and not key:
             env[name] = ("d", {}) if "A" in flag else ("l", []) if "a" in flag else ("s", W("", ""))
-        return m.end()
+            return m.end()
+        return -1
     j = m.end()
     if j < len(s) and s[j] == "(":
         items, end, a = _shlist(s, j, shell)
@@ -295,13 +320,15 @@ def _stmt(s, m, shell, env, an):
     if a:
         if KNOWN.match(name) and not (name == "state" and not decl and shell != "fish"):
             an.append("cannot parse value of %s: %r (%s)" % (name, s[m.end():m.end() + 40], "; ".join(a)))
-        return m.end()
+        return -1
     if key is not None:
         if items is not None:
             an.append("%s[%s] assigned a list" % (name, key))
             return end
         cur = env.get(name)
         if cur is None or cur[0] == "s":
+            if KNOWN.match(name):
+                an.append("%s[%s] assigned but %s was not declared as an array" % (name, key, name))
             cur = ("d", {})
         elif cur[0] == "l":
             cur = ("d", dict((str(i + BASE[shell]), x) for i, x in enumerate(cur[1])))
@@ -424,7 +451,9 @@ def _norm_sh(env, shell, p, main):
     return N
 
 
-def _norm_fish(env, p, main):
+def _norm_fish(env, p, main, code):
+    """code = text of the function doing the lookups; where it indexes a table differently from the table's own
+    pairing, a "lookup:" anomaly says so (the tables are still joined by their own pairing)"""
     N = _N()
 
     def lst(name):  # fish list as {1-based index: W}
@@ -476,6 +505,9 @@ def _norm_fish(env, p, main):
                 seen.add(i)
                 if i is not None and s is not None:
                     N.m[kind].append((s, i, -1 if to is None else to))
+                    if kind == "sub" and "set state $tos[$subword_id]" in code and (b[i - 1] if 1 <= i <= len(b) else "") != (b[k] if k < len(b) else ""):
+                        N.an.append("lookup: subword_transitions state %s id %d: the code reads $tos[$subword_id] = %r, the paired target is %r"
+                                    % (s, i, b[i - 1] if 1 <= i <= len(b) else "", b[k] if k < len(b) else ""))
     for s, w in sorted(lst(p + "command_transitions").items(), key=lambda x: -1 if x[0] is None else x[0]):
         for cell in w.dec.split():
             f = cell.split(",")
@@ -507,6 +539,13 @@ def _norm_fish(env, p, main):
                 if s is None or first(F, F[pos].dec) != pos:
                     continue
                 N.c[kind].setdefault(lv, []).append((s, _ints(C[pos], N.an, cells + str(lv)) if pos in C else []))
+                cell = C[pos].dec.split() if pos in C else []
+                if kind == "cmd" and main and "set commands (string split ' ' $$commands_name)" in code:
+                    flat = [x for q in sorted(C) for x in C[q].dec.split(" ")]
+                    if cell != flat[pos - 1:pos]:
+                        N.an.append("lookup: %s%d state %d: the code runs command %s of the flattened list, the cell holds %s" % (cells, lv, s, flat[pos - 1:pos], cell))
+                if kind == "cmd" and not main and "set function_id $$subword_commands_level_name[1][$index]" in code and len(cell) != 1:
+                    N.an.append("lookup: %s%d state %d: the code uses the whole cell %r as one command id" % (cells, lv, s, C[pos].dec if pos in C else ""))
     mx = lst("subword_max_fallback_level")          # also (re)set by the main function; only meaningful within words
     if not main and 1 in mx:
         N.max = _int(mx[1], N.an, "subword_max_fallback_level")
@@ -701,7 +740,7 @@ def _read(text, shell, command):
 
     def norm(env, prefix, is_main):
         if shell == "fish":
-            return _norm_fish(env, prefix, is_main)
+            return _norm_fish(env, prefix, is_main, blocks[main] if is_main else blocks.get("_%s_subword" % command, ""))
         if shell == "pwsh":
             return _norm_pwsh(env, is_main)
         return _norm_sh(env, shell, prefix, is_main)
